@@ -10,6 +10,7 @@ import (
 	"time"
 
 	"github.com/benbjohnson/litestream"
+	"github.com/superfly/ltx"
 )
 
 func blob(k, i, n int) []byte {
@@ -396,6 +397,27 @@ func (e *Env) exec(op Op, ack *bool) error {
 			return nil
 		}
 		return os.RemoveAll(litestream.NewDB(e.DBPath).MetaPath())
+	case "blocktmp": // local storage fault: the staging file of the L0 file for TXID pos+A cannot be created (a directory sits at its path)
+		if e.LS == nil || e.Cfg.NoLitestream {
+			return nil
+		}
+		pos, err := e.LS.Pos()
+		if err != nil {
+			return nil
+		}
+		t := pos.TXID + ltx.TXID(op.A)
+		return os.MkdirAll(e.LS.LTXPath(0, t, t)+".tmp", 0o755)
+	case "unblocktmp": // the fault goes away
+		if e.Cfg.NoLitestream {
+			return nil
+		}
+		ms, _ := filepath.Glob(filepath.Join(litestream.NewDB(e.DBPath).LTXLevelDir(0), "*.ltx.tmp"))
+		for _, m := range ms {
+			if fi, err := os.Stat(m); err == nil && fi.IsDir() {
+				os.RemoveAll(m)
+			}
+		}
+		return nil
 	case "autorecover": // run-time reset of local state (what auto-recover does)
 		db, err := e.ls()
 		if err != nil {
